@@ -14,6 +14,7 @@ type vCase struct {
 	Op   string `json:"op"`
 	A    string `json:"a"`
 	B    string `json:"b"`
+	C    string `json:"c"`
 }
 
 var vM, _ = new(big.Int).SetString("fffffffffffffffffffffffffffffffebaaedce6af48a03bbfd25e8cd0364141", 16)
@@ -51,7 +52,7 @@ func TestVerifReplay(t *testing.T) {
 	R := new(big.Int).Lsh(big.NewInt(1), 256)
 	Ri := new(big.Int).ModInverse(R, vM)
 	for i, c := range f.Cases {
-		if c.Kind != "kernel" {
+		if c.Kind != "kernel" && c.Kind != "kernel-expect" {
 			continue
 		}
 		a, b := vLimbsOf(c.A), vLimbsOf(c.B)
@@ -81,9 +82,6 @@ func TestVerifReplay(t *testing.T) {
 			want.Sub(av, bv)
 		case "subself":
 			Sub(&mo, &ma, &ma)
-		case "opp":
-			Opp(&mo, &ma)
-			want.Neg(av)
 		case "from":
 			var no NonMontgomeryDomainFieldElement
 			FromMontgomery(&no, &ma)
@@ -96,6 +94,13 @@ func TestVerifReplay(t *testing.T) {
 		}
 		out = mo
 		want.Mod(want, vM)
+		if c.Kind == "kernel-expect" {
+			// translator validation: the expectation is what the symbolic executor's term graph evaluates to
+			if vValOf(out).Cmp(vValOf(vLimbsOf(c.C))) != 0 {
+				t.Errorf("TRANSLATION-MISMATCH case=%d: native %s(%s,%s) = %x, symx term graph gives %s", i, c.Op, c.A, c.B, vValOf(out), c.C)
+			}
+			continue
+		}
 		if vValOf(out).Cmp(want) != 0 {
 			t.Errorf("MISMATCH case=%d kind=kernel: %s(%s,%s) = %x, want %x", i, c.Op, c.A, c.B, vValOf(out), want)
 		}
